@@ -150,7 +150,15 @@ def main(argv=None):
     bfn = getattr(mod, "bounded", None)
     if bfn is not None:
         try:
-            bounded = bfn(tier, seed)
+            from rtc.watchdog import limit, NonTerminating
+            budget = int(os.environ.get("VERIF_BOUNDED_BUDGET_S", "1500" if tier == "quick" else "14400"))
+            try:
+                with limit(budget, f"the bounded layer of {prop}"):
+                    bounded = bfn(tier, seed)
+            except NonTerminating as e:
+                # not a verdict: the layer did not finish (a guarded call inside it reports non-termination itself, as a failure)
+                undecided.append(f"bounded layer: {e} did not finish within {budget} s")
+                bounded = {"evaluations": 0, "failures": [], "rule": f"not finished within {budget} s"}
             for f in bounded.get("failures", []):
                 what = f"bounded::{f['what']}"
                 k = match_known(known, prop, what)
